@@ -85,7 +85,7 @@ fn('neighbors._Neighbors._get_nhood_predictions', props='C03 C05 C07 C09 C10 C11
                               'indices_in_range(indices, slen(self.decisions))', 'n_indices(indices) > 0',
                               '(not isinstance(lp, _ThompsonSampling)) or is_none(lp.binarizer) or lp.is_contextual_binarized'],
    modifies=['lp.**', 'lp.rng.rng.state'],
-   functional=True, varies=['lp'], result=nh_result,
+   functional=True, varies=['lp'], result=nh_result, functional_props='C03 C05 C07',
    reads=['lp:config', 'rngstate(lp.rng)', 'lp.binarizer?', 'lp.is_contextual_binarized?', 'self.arms', 'self.decisions',
           'self.rewards', 'self.contexts'],
    ensures=['[C08,member] mem(self.arms, result) if is_predict else keys(result) == self.arms',
